@@ -82,6 +82,29 @@ Definition gpost (s : gst) (x : hitem) : gst :=
 
 Definition gst_init : gst := mkG KOffline 0.
 
+(* C13_deadline_constant_in_visit.  d_dead: the deadline seen at the end of the first poll of this visit
+   in which an application was asked; d_cur: an application has been asked in the current poll. *)
+Record dst : Set := mkD { d_kind : state_kind; d_dead : option Z; d_cur : bool }.
+
+Definition dpre (s : dst) (x : hitem) : Prop :=
+  match x with
+  | HEnd now f => d_cur s = true -> forall e, d_dead s = Some e -> f_end_tht f = e
+  | _ => True
+  end.
+
+Definition dpost (s : dst) (x : hitem) : dst :=
+  match x with
+  | HCall (CallTransmit _ _ _) => mkD (d_kind s) (d_dead s) true
+  | HCall _ => s
+  | HEnd now f =>
+      let k' := kind_of (f_state f) in
+      mkD k' (if in_visit k' then (if in_visit (d_kind s) then (if d_cur s then Some (f_end_tht f) else d_dead s) else None) else None)
+          false
+  | HReset => mkD KOffline None false
+  end.
+
+Definition dst_init : dst := mkD KOffline None false.
+
 Lemma classic_asks (calls : list call) : (exists i hp r, In (CallTransmit i hp r) calls) \/ ~ (exists i hp r, In (CallTransmit i hp r) calls).
 Proof.
   induction calls as [|c l IH].
@@ -214,6 +237,8 @@ Definition prio_of (hp : bool) (c : call) : Prop :=
   match c with CallTransmit _ hp' _ => hp' = hp | _ => True end.
 Definition asks (calls : list call) : Prop := exists i hp r, In (CallTransmit i hp r) calls.
 
+Lemma asks_nil : ~ asks []. Proof. intros [i [hp [r []]]]. Qed.
+
 Lemma transmit_calls_prio hp l : Forall (is_transmit_call hp) l -> Forall (prio_of hp) l.
 Proof. apply Forall_impl. intros c [i [r ->]]. reflexivity. Qed.
 
@@ -257,7 +282,11 @@ Definition visit_step (f : fdl) (calls : list call) (f' : fdl) : Prop :=
      (f_state f' = ActiveIdle None None 0 /\ calls = [] /\ exists a fa, f_state f = AwaitDataResponse a tk fa) \/
      (exists fa', f_state f' = UseToken tk fa' true) \/
      (exists a fa', f_state f' = AwaitDataResponse a tk fa') \/
-     f_state f' = PassToken true first_attempt).
+     f_state f' = PassToken true first_attempt) /\
+    (* the deadline of the visit: kept once last_token_time is the token time of the visit, which it is
+       as soon as applications have been asked *)
+    (f_last_token_time f = tk -> f_last_token_time f' = tk /\ f_end_tht f' = f_end_tht f) /\
+    (asks calls -> f_last_token_time f' = tk).
 
 Lemma poll_state_cases f now pin (apps : list A) f' o apps' calls :
   poll ops f now pin apps = Ok (f', o, apps', calls) ->
@@ -268,22 +297,33 @@ Proof.
   - left. split; [reflexivity|exact Hq].
   - right. assert (Hd' := Hd). unfold do_use_token, assert_entry in Hd'.
     destruct (f_state f3) as [ | | | |tk fa fcd| | | | | ] eqn:Es3; cbn [kind_of do_fn_entry state_kind_eqb bind] in Hd'; try discriminate Hd'.
-    clear Hd'. eapply do_use_token_state in Hd; [|exact Es3]. destruct Hd as [_ [_ Hst]].
-    exists tk. split; [left; exists fa, fcd; congruence|].
-    destruct Hst as [[E1 E2]|[E|[E|E]]]; [left; split; congruence|right; right; left; exact E|right; right; right; left; exact E|right; right; right; right; exact E].
+    clear Hd'. eapply do_use_token_state in Hd; [|exact Es3]. destruct Hd as [_ [Hdl Hst]].
+    destruct Kf3 as [_ [_ [Kl Ke]]]. rewrite Kl, Ke in Hdl.
+    exists tk. split; [left; exists fa, fcd; congruence|]. split; [|split].
+    + destruct Hst as [[E1 E2]|[E|[E|E]]]; [left; split; congruence|right; right; left; exact E|right; right; right; left; exact E|right; right; right; right; exact E].
+    + intros El. rewrite El, Z.eqb_refl in Hdl. destruct Hdl as [D1 D2]. split; congruence.
+    + intros _. destruct (Z.eqb_spec (f_last_token_time f) tk) as [El|El]; destruct Hdl as [D1 D2]; congruence.
   - right. apply do_await_data_response_split in Hd.
     destruct Hd as [a [tk [fa [app [Es [En Hcases]]]]]].
+    destruct Kf3 as [_ [_ [Kl Ke]]].
     exists tk. split; [right; exists a, fa; congruence|].
-    destruct Hcases as [[t' [app' [Hok [_ [Hc [_ [_ Es']]]]]]]|[[[Hw _] [_ Es']]|[[[Hw _] [_ Es']]|[app' [f4 [w4 [_ [Hc4 [_ [_ [Es4 Hdo]]]]]]]]]]].
-    + right; right; left. exists fa. exact Es'.
-    + right; left. split; [exact Es'|]. split; [congruence|]. exists a, fa. congruence.
-    + left. split; congruence.
-    + eapply do_use_token_state in Hdo; [|exact Es4]. destruct Hdo as [_ [_ Hst]].
-      destruct Hst as [[E1 E2]|[E|[E|E]]].
-      * right; right; left. exists fa. congruence.
-      * right; right; left. exact E.
-      * right; right; right; left. exact E.
-      * right; right; right; right. exact E.
+    destruct Hcases as [[t' [app' [Hok [_ [Hc [_ [Kf Es']]]]]]]|[[[Hw _] [Kf Es']]|[[[Hw _] [Kf Es']]|[app' [f4 [w4 [_ [Hc4 [_ [Kf4 [Es4 Hdo]]]]]]]]]]].
+    + split; [right; right; left; exists fa; exact Es'|]. destruct Kf as [_ [_ [Kl' Ke']]].
+      split; [intros El; split; congruence|]. rewrite Hc, Hc3. intros [i [hp [r [C|[]]]]]. discriminate C.
+    + split; [right; left; split; [exact Es'|]; split; [congruence|]; exists a, fa; congruence|]. destruct Kf as [_ [_ [Kl' Ke']]].
+      split; [intros El; split; congruence|]. rewrite Hw, Hc3. intros C. destruct (asks_nil C).
+    + split; [left; split; congruence|]. destruct Kf as [_ [_ [Kl' Ke']]].
+      split; [intros El; split; congruence|]. rewrite Hw, Hc3. intros C. destruct (asks_nil C).
+    + eapply do_use_token_state in Hdo; [|exact Es4]. destruct Hdo as [_ [Hdl Hst]].
+      destruct Kf4 as [_ [_ [Kl4 Ke4]]]. rewrite Kl4, Ke4, Kl, Ke in Hdl.
+      split; [|split].
+      * destruct Hst as [[E1 E2]|[E|[E|E]]].
+        -- right; right; left. exists fa. congruence.
+        -- right; right; left. exact E.
+        -- right; right; right; left. exact E.
+        -- right; right; right; right. exact E.
+      * intros El. rewrite El, Z.eqb_refl in Hdl. destruct Hdl as [D1 D2]. split; congruence.
+      * intros _. destruct (Z.eqb_spec (f_last_token_time f) tk) as [El|El]; destruct Hdl as [D1 D2]; congruence.
 Qed.
 
 (* ------------------------------------------------------------------------------------------ *)
@@ -350,7 +390,6 @@ Proof.
       right. exists j, hp, r. right. exact Y.
 Qed.
 
-Lemma asks_nil : ~ asks []. Proof. intros [i [hp [r []]]]. Qed.
 
 Lemma quiet_poll_visit now f f' :
   quiet_poll now f f' -> in_visit (kind_of (f_state f)) = true -> in_visit (kind_of (f_state f')) = true ->
@@ -402,7 +441,7 @@ Proof.
       destruct (f_state f1) as [ | | | |tk1 fa1 fcd1| | | | | ] eqn:Es1; try exact I. cbn.
       rewrite P1, P2, Hk. destruct (in_visit (kind_of (f_state f))) eqn:Hin; [|discriminate].
       intros Hor.
-      destruct Hcases as [[Hnil Hq]|[tk [Hfrom Hto]]].
+      destruct Hcases as [[Hnil Hq]|[tk [Hfrom [Hto _]]]].
       * (* no calls: the state is unchanged *)
         assert (Es : f_state f1 = f_state f) by (apply (quiet_poll_visit _ _ _ Hq Hin); rewrite Es1; reflexivity).
         rewrite Es1 in Es. rewrite <- Es in Hfcd. apply Hfcd.
@@ -443,7 +482,7 @@ Proof.
                        f_state f = f_state f1 \/ exists att, f_state f = PassToken true att) /\
                     (forall att, f_state f1 = PassToken true att ->
                        f_state f = f_state f1 \/ in_visit (kind_of (f_state f)) = true)).
-    { destruct Hcases as [[_ [_ [R|[_ [s3 [Hp [Hq _]]]]]]]|[tk [Hfr Hto]]].
+    { destruct Hcases as [[_ [_ [R|[_ [s3 [Hp [Hq _]]]]]]]|[tk [Hfr [Hto _]]]].
       - destruct R as [R _]. split; intros x E; rewrite R in E; discriminate E.
       - split.
         + intros a E. rewrite E in Hq. cbn in Hq. destruct Hq as [Hq|[att Hq]].
@@ -475,6 +514,95 @@ Proof.
     injection H as <- _ <-. apply fdl_new_spec in En. destruct En as [[Rs _] _].
     split; [split; exact I|]. unfold InvG. cbn. rewrite Rs. cbn. split; [reflexivity|]. split; [discriminate|discriminate].
   - injection H as <- _ <-. split; [exact I|]. unfold InvG. tauto.
+Qed.
+
+(* ---- one deadline per visit ---- *)
+Definition InvD (f : fdl) (s : dst) : Prop :=
+  d_kind s = kind_of (f_state f) /\ d_cur s = false /\
+  forall e, d_dead s = Some e ->
+    match f_state f with
+    | UseToken tk _ _ | AwaitDataResponse _ tk _ => f_last_token_time f = tk /\ f_end_tht f = e
+    | _ => False
+    end.
+
+Lemma dcalls : forall l s, accepts dpre dpost s (map HCall l) /\
+  let s' := posts dpost s (map HCall l) in
+  d_kind s' = d_kind s /\ d_dead s' = d_dead s /\ (d_cur s' = true -> d_cur s = true \/ asks l).
+Proof.
+  induction l as [|c l IH]; intros s; cbn; [tauto|].
+  destruct c as [i hp r|i a t|i a].
+  - destruct (IH (mkD (d_kind s) (d_dead s) true)) as [Ha [H1 [H2 H3]]]. split; [split; [exact I|exact Ha]|].
+    split; [exact H1|]. split; [exact H2|]. intros _. right. exists i, hp, r. left. reflexivity.
+  - destruct (IH s) as [Ha [H1 [H2 H3]]]. split; [split; [exact I|exact Ha]|]. split; [exact H1|]. split; [exact H2|].
+    intros X. destruct (H3 X) as [Y|[j [hp [r Y]]]]; [left; exact Y|right; exists j, hp, r; right; exact Y].
+  - destruct (IH s) as [Ha [H1 [H2 H3]]]. split; [split; [exact I|exact Ha]|]. split; [exact H1|]. split; [exact H2|].
+    intros X. destruct (H3 X) as [Y|[j [hp [r Y]]]]; [left; exact Y|right; exists j, hp, r; right; exact Y].
+Qed.
+
+Lemma step_dead f apps e f' apps' h s :
+  InvD f s -> step A ops f apps e = Ok (f', apps', h) ->
+  accepts dpre dpost s h /\ InvD f' (posts dpost s h).
+Proof.
+  intros [Hk [Hcur Hdead]] H. destruct e as [now pin| | |g]; cbn [step] in H.
+  - destruct (poll ops f now pin apps) as [[[[f1 o1] a1] calls]| |] eqn:Ep; cbn [bind] in H; try discriminate H.
+    injection H as <- _ <-.
+    pose proof (poll_state_cases _ _ _ _ _ _ _ _ Ep) as Hcases.
+    destruct (dcalls calls s) as [Hacc [P1 [P2 P3]]]. cbn zeta in *.
+    set (s1 := posts dpost s (map HCall calls)) in *.
+    assert (Hasks : d_cur s1 = true -> asks calls) by (intros X; destruct (P3 X) as [Y|Y]; [congruence|exact Y]).
+    destruct Hcases as [[Hnil Hq]|[tk [Hfrom [Hto [D1 D2]]]]].
+    + (* no calls *)
+      assert (Hc1 : d_cur s1 = false).
+      { destruct (d_cur s1) eqn:Ec; [|reflexivity]. exfalso. apply asks_nil. rewrite <- Hnil. exact (Hasks eq_refl). }
+      split.
+      * apply accepts_app. split; [exact Hacc|]. cbn. fold s1. split; [|exact I]. rewrite Hc1. discriminate.
+      * rewrite posts_app. fold s1. cbn. unfold InvD. cbn. split; [reflexivity|]. split; [reflexivity|].
+        rewrite P1, P2, Hc1, Hk. intros e0 He0.
+        destruct (in_visit (kind_of (f_state f1))) eqn:Hin1; [|discriminate He0].
+        destruct (in_visit (kind_of (f_state f))) eqn:Hin; [|discriminate He0].
+        pose proof (quiet_poll_visit _ _ _ Hq Hin Hin1) as Es. rewrite Es. specialize (Hdead _ He0).
+        destruct Hq as [_ [[R _]|[[_ [_ [Kl Ke]]] _]]]; [rewrite R in Hin1; discriminate Hin1|].
+        rewrite Kl, Ke. exact Hdead.
+    + (* a poll inside a visit with token time tk *)
+      assert (Htk : forall e0, d_dead s = Some e0 -> f_last_token_time f = tk /\ f_end_tht f = e0).
+      { intros e0 He0. specialize (Hdead _ He0).
+        destruct Hfrom as [[fa [fcd Es]]|[a [fa Es]]]; rewrite Es in Hdead; exact Hdead. }
+      split.
+      * apply accepts_app. split; [exact Hacc|]. cbn. fold s1. split; [|exact I].
+        intros _ e0 He0. rewrite P2 in He0. destruct (Htk _ He0) as [T1 T2]. destruct (D1 T1) as [_ E]. congruence.
+      * rewrite posts_app. fold s1. cbn. unfold InvD. cbn. split; [reflexivity|]. split; [reflexivity|].
+        rewrite P1, P2, Hk. intros e0 He0.
+        assert (Hin : in_visit (kind_of (f_state f)) = true) by (destruct Hfrom as [[fa [fcd ->]]|[a [fa ->]]]; reflexivity).
+        rewrite Hin in He0.
+        assert (Hgoal : f_last_token_time f1 = tk /\ f_end_tht f1 = e0).
+        { destruct (in_visit (kind_of (f_state f1))); [|discriminate He0].
+          destruct (d_cur s1) eqn:Ec.
+          - injection He0 as <-. split; [exact (D2 (Hasks eq_refl))|reflexivity].
+          - destruct (Htk _ He0) as [T1 T2]. destruct (D1 T1) as [X Y]. split; congruence. }
+        destruct Hto as [[E1 _]|[[E1 _]|[[fa' E1]|[[a [fa' E1]]|E1]]]].
+        -- rewrite E1. destruct Hfrom as [[fa [fcd ->]]|[a [fa ->]]]; exact Hgoal.
+        -- rewrite E1 in He0. discriminate He0.
+        -- rewrite E1. exact Hgoal.
+        -- rewrite E1. exact Hgoal.
+        -- rewrite E1 in He0. discriminate He0.
+  - unfold set_online, set_state in H. cbn [bind] in H. injection H as <- _ <-.
+    split; [exact I|]. unfold InvD. cbn. tauto.
+  - unfold set_offline, set_state in H. destruct (fdl_new (f_p f)) as [f1| |] eqn:En; cbn [bind] in H; try discriminate H.
+    injection H as <- _ <-. apply fdl_new_spec in En. destruct En as [[Rs _] _].
+    split; [split; exact I|]. unfold InvD. cbn. rewrite Rs. cbn. split; [reflexivity|]. split; [reflexivity|discriminate].
+  - injection H as <- _ <-. split; [exact I|]. unfold InvD. tauto.
+Qed.
+
+Lemma InvD_init p f : fdl_new p = Ok f -> InvD f dst_init.
+Proof.
+  intros H. apply fdl_new_spec in H. destruct H as [[Rs _] _]. unfold InvD. rewrite Rs. cbn.
+  split; [reflexivity|]. split; [reflexivity|discriminate].
+Qed.
+
+Theorem deadline_constant_history p f0 (apps : list A) evs f apps' h :
+  fdl_new p = Ok f0 -> run A ops f0 apps evs = Ok (f, apps', h) -> accepts dpre dpost dst_init h.
+Proof.
+  intros Hn Hr. exact (proj1 (run_invariant dst dpre dpost InvD step_dead _ _ _ _ _ _ _ (InvD_init _ _ Hn) Hr)).
 Qed.
 
 (* ---- the history theorems ---- *)
@@ -624,3 +752,8 @@ Proof. cbn. intros [[_ C] _]. discriminate C. Qed.
 Lemma gap_rejects_second_poll :
   ~ accepts gpre gpost (mkG KPassToken 1) [HEnd 0 (stub_fdl (AwaitStatusResponse 9) 0)].
 Proof. cbn. intros [C _]. destruct (C eq_refl ltac:(discriminate)) as [_ C']. discriminate C'. Qed.
+
+Lemma deadline_rejects_change :
+  ~ accepts dpre dpost (mkD KUseToken (Some 400) false)
+      [HCall (CallTransmit 0 false None); HEnd 100 (stub_fdl (UseToken 0 None true) 900)].
+Proof. cbn. intros [_ [C _]]. specialize (C eq_refl 400 eq_refl). discriminate C. Qed.
